@@ -18,11 +18,14 @@ Transcription notes
   * the token counter is a PARAMETER: `Counter.count : Str → Nat` and the self-declared flag
     `Counter.additive` (`TokenCounter::is_additive_over_whitespace_join`).  `usize` arithmetic on
     counts is modelled in `Nat` (no overflow: counts of real counters are bounded by the text length).
-  * `ElementGraph::build` + `elements_in_section` + the gather loop of `chunk_with_graph` are fused
-    into one left-to-right pass (`gstep`): a `HashMap<String, usize>` that is overwritten at every
-    title is "the most recent title with that text", a non-title element is pushed onto the
-    children of that title, elements with no (matching) `parent_heading` are pushed nowhere.
-    Sections are processed in title order, children in index order, exactly as the code does.
+  * `ElementGraph::build` + `elements_in_section` + the `unattached` pass and the gather loop of
+    `chunk_with_graph` are fused into one left-to-right pass (`gstep`): a `HashMap<String, usize>`
+    that is overwritten at every title is "the most recent title with that text", a non-title
+    element is pushed onto the children of that title, elements with no (matching)
+    `parent_heading` onto the children of the nearest preceding title.  Sections are processed in
+    title order, children in index order, exactly as the code does.  The LITERAL index-based
+    transcription (two hash maps, `parent`/`children` vectors, `top_level_sections`, the
+    `unattached` vectors, `sort_unstable`) is `Model/C14Graph.lean`; the driver runs both.
 Import-free.
 -/
 namespace OxiVerif.C14
@@ -281,26 +284,42 @@ def addChild (h : Str) (e : Elem) : List Sec → List Sec
     if s.title.text = h then { s with children := s.children ++ [e] } :: rest
     else s :: addChild h e rest
 
-/-- one element of the second pass of `ElementGraph::build` (after the first title) -/
+/-- `active_title_for_heading.get(h).is_some()`: some earlier title has text `h` -/
+def hasTitle (h : Str) (secsRev : List Sec) : Bool := secsRev.any fun s => decide (s.title.text = h)
+
+/-- push `e` onto the children of the nearest preceding title (the `unattached` pass of
+    `chunk_with_graph`) -/
+def addToHead (e : Elem) : List Sec → List Sec
+  | [] => []
+  | s :: rest => { s with children := s.children ++ [e] } :: rest
+
+/-- one element of the second pass of `ElementGraph::build` (after the first title), fused with the
+    `unattached` pass of `chunk_with_graph`: an element that the graph gives no parent
+    (`parent_heading` is `None` or names no earlier title) goes to the nearest preceding title.
+    One left-to-right pass appends in index order, which is what `child_indices.sort_unstable()`
+    restores in the code. -/
 def gstep (secsRev : List Sec) (e : Elem) : List Sec :=
   if e.isTitle then ⟨e, []⟩ :: secsRev
   else
     match e.md.parentHeading with
-    | some h => addChild h e secsRev
-    | none => secsRev
+    | some h => if hasTitle h secsRev then addChild h e secsRev else addToHead e secsRev
+    | none => addToHead e secsRev
 
 def Sec.elems (s : Sec) : List Elem := s.title :: s.children
 
-/-- the body of the `for &title_idx in &top_sections` loop -/
+/-- `title_heading` -/
+def titleHeadingOf (t : Elem) : Option Str :=
+  match t.md.parentHeading with
+  | some h => some h
+  | none => some t.text
+
+/-- the body of the `for (section_pos, &title_idx) in top_sections…` loop: the whole-section chunk
+    is built first (`make_chunk` stamps `count(joined text)`) and approved on that stamp -/
 def processSection (cfg : Config) (cnt : Counter) (s : Sec) : List Chunk :=
-  let titleHeading : Option Str :=
-    match s.title.md.parentHeading with
-    | some h => some h
-    | none => some s.title.text
-  let sectionElements := s.elems
-  let sectionTokens := (sectionElements.map fun e => cnt.count e.display).foldl (· + ·) 0
-  if sectionTokens ≤ cfg.maxTokens then [mkChunk cnt sectionElements titleHeading false]
-  else (chunk cfg cnt sectionElements).map fun c => { c with heading := titleHeading }
+  let titleHeading := titleHeadingOf s.title
+  let sectionChunk := mkChunk cnt s.elems titleHeading false
+  if sectionChunk.tokenEstimate ≤ cfg.maxTokens then [sectionChunk]
+  else (chunk cfg cnt sectionChunk.elements).map fun c => { c with heading := titleHeading }
 
 def preamble (els : List Elem) : List Elem := els.takeWhile fun e => !e.isTitle
 def afterPreamble (els : List Elem) : List Elem := els.dropWhile fun e => !e.isTitle
